@@ -528,6 +528,10 @@ pub async fn execute(case: &Case) -> RunOut {
                             if in_use(t, &pairs, &pendings) >= max_ports[t] {
                                 continue;
                             }
+                            // A port number whose handles were just dropped is free again only after
+                            // the drops have travelled to the peer and back; a no-wait accept before
+                            // that rightly answers LocalPortsExhausted.
+                            tokio::time::sleep(std::time::Duration::from_secs(settle_s)).await;
                             let req = pendings[i].held.take().unwrap();
                             let c = pendings[i].connect.take();
                             let r = sim::within(3000, async {
@@ -728,7 +732,7 @@ pub fn main(tier: Tier, seed: u64) -> Report {
     if !regress.is_empty() {
         runner::run_cases(&mut rep, "regress", regress, run_case);
     }
-    runner::run_generated(&mut rep, "gen", tier.pick(4000, 150_000), || strategy(tier), run_case);
+    runner::run_generated(&mut rep, "gen", tier.pick(30_000, 150_000), || strategy(tier), run_case);
     rep
 }
 
